@@ -454,6 +454,21 @@ def _one(node, label):
     return run
 
 
+def _dict_items_with_a_bad_key(ctx):
+    """Mappings whose FIRST / only / every item has a key the key loader refuses while the value is fine (and the reverse): the three modes
+    agree on the outcome, plain and as a union case (seeded change: ALL stored a value under a key that had failed to load -
+    UnboundLocalError for the first item; caught by a random case at three of four seeds only)."""
+    K = spec.SCALAR_BY_KIND
+    nodes = [spec.DictT("Dict", spec.IntT(), spec.StrT()), spec.DictT("Mapping", K["date"], spec.IntT()), spec.DictT("DefaultDict", spec.IntT(), spec.IntT()),
+             spec.UnionT([spec.DictT("Dict", spec.IntT(), spec.StrT()), spec.DictT("Dict", spec.StrT(), spec.StrT())]), spec.IterT("List", spec.DictT("Dict", spec.IntT(), spec.StrT()))]
+    data = [("bad-key-first", {"x": "a", 1: "b"}), ("bad-key-only", {"x": "a"}), ("bad-key-last", {1: "b", "x": "a"}), ("bad-value-first", {1: 5, 2: "b"}), ("bad-key-and-value", {"x": 5}),
+            ("two-bad-keys", {"x": "a", "y": "b"}), ("good", {1: "a"})]
+    for n in nodes:
+        bag = [(lbl, (lambda d=d, n=n: [dict(d)] if n.kind == "List" else dict(d)), False) for lbl, d in data]
+        check(ctx, n, Program(n), [], bag)
+
+
 DIRECTED = {
+    "dict-items-with-a-bad-key": _dict_items_with_a_bad_key,
     "tuple-from-iterator": _one(spec.TupleT([spec.IntT(), spec.IntT()]), "iter([1,2])"),
 }
